@@ -134,6 +134,28 @@ func genC04(r *Rng, tier string, mode string) *c04W {
 func shrinkC04(w *c04W) []interface{} {
 	var out []interface{}
 	cp := func() *c04W { n := &c04W{}; jsonClone(w, n); return n }
+	if w.U != nil {
+		// crash-volume: whole calls are dropped and the crash is pinned to one
+		// call; the long batches themselves are the point of the case
+		for i := len(w.Ops) - 1; i >= 1; i-- {
+			n := cp()
+			n.Ops = append(n.Ops[:i], n.Ops[i+1:]...)
+			if n.CrashOp > i {
+				n.CrashOp--
+			} else if n.CrashOp == i {
+				continue
+			}
+			out = append(out, n)
+		}
+		if w.CrashOp < 0 {
+			for i := range w.Ops {
+				n := cp()
+				n.CrashOp = i
+				out = append(out, n)
+			}
+		}
+		return out
+	}
 	for i := len(w.Ops) - 1; i >= 0; i-- {
 		n := cp()
 		n.Ops = append(n.Ops[:i], n.Ops[i+1:]...)
